@@ -718,8 +718,39 @@ struct Env {
     if (xrt::has_violation())
       return;
     xrt::Quiet q;
-    if (!reg().kind.empty())
+    if (!reg().kind.empty()) {
       out.fail(g_prop, reg().kind.c_str(), reg().msg);
+      return;
+    }
+    // Bookkeeping census (C17 "bookkeeping is recycled", C18 "slots reusable"): every thread of this execution has exited and the shared
+    // cells are gone, so what is still live on the heap is the reclaimer's bookkeeping (control blocks of exited threads, grown slot
+    // blocks, orphaned retire lists) plus the harness' constant state. Executions of one process re-use the records of the threads of all
+    // earlier executions, so the live heap at this point must stay bounded by the peak demand of one execution however many thread
+    // generations have come and gone. Reference = maximum over executions 24..47 (warm-up done: every program shape has occurred many
+    // times); afterwards more than 4 x reference + 64 KiB is reported (a block that is never re-linked / never released makes the
+    // footprint grow with every generation; observed on the unchanged tree: the maximum after execution 48 equals the reference or
+    // exceeds it by a few hundred bytes).
+    uint64_t live = xrt::heap_live_bytes();
+    if (live) { // 0: native runtime (no heap census there)
+      static uint64_t execs_seen = 0, reference = 0, worst = 0;
+      ++execs_seen;
+      if (execs_seen >= 24 && execs_seen < 48)
+        reference = std::max(reference, live);
+      else if (execs_seen >= 48) {
+        worst = std::max(worst, live);
+        counters().add("bookkeeping_census_samples");
+        counters().max("max_bookkeeping_bytes_reference", reference);
+        counters().max("max_bookkeeping_bytes_after_warmup", worst);
+        if (getenv("XV_CENSUS_TRACE") && (execs_seen & (execs_seen - 1)) == 0)
+          fprintf(stderr, "CENSUS exec=%" PRIu64 " live=%" PRIu64 " ref=%" PRIu64 " worst=%" PRIu64 " blocks=%" PRIu64 "\n", execs_seen, live, reference, worst, xrt::heap_live_blocks());
+        if (live > 4 * reference + 65536)
+          out.fail("C17", "bookkeeping-growth",
+                   fmt("live heap after all threads of execution %" PRIu64 " of this process have exited = %" PRIu64 " bytes in %" PRIu64
+                       " blocks; reference (maximum over executions 24..47) = %" PRIu64 " bytes: the reclaimer's bookkeeping grows with the number of "
+                       "thread generations instead of being recycled",
+                       execs_seen, live, xrt::heap_live_blocks(), reference));
+      }
+    }
   }
 
   // ---- bounded-exhaustive sequences on one thread ---------------------------------------------------------------------------
